@@ -10,6 +10,7 @@ ops (one output line each):
   body <type> <flags> <sid> <len> <hex> -> ok <remaining> <summary> | eof | err <code>
   settings_frame <flags> <hex>          -> ok <remaining> <summary> | eof | err <code>
   fframe <0 normal|1 closed stream|2 in header block> <hex frame> -> the flood events of that received frame (as `f`)
+  hbudget <max bytes> <max fields> <k:v,...> / clen <declared|-> <len:es,...> / prio <known> <lookahead> <sid> <dep> -> handled | serr c | cerr c
   psettings <hex payload> -> ack <local max frame size> | cerr <code>; cdecode <hex> -> decode with the connection's receive bound
   cnew <max streams> / cframe <sid> <kind> <end_stream 0|1> -> the connection-history model (connStep)
   stream <state> <frame kind>           -> handled | serr <code> | cerr <code>  (handle_header_state's table)
@@ -26,6 +27,11 @@ ops (one output line each):
 -/
 
 def b01 (b : Bool) : String := if b then "1" else "0"
+
+def soutStr : StreamOut → String
+  | .handled => "handled"
+  | .streamError c => s!"serr {c}"
+  | .connError c => s!"cerr {c}"
 
 def typeByte : FType → Nat := serializeFrameType
 
@@ -120,10 +126,46 @@ def stepLine (st : St) (line : String) : St × List String :=
       if st.dead then (st, ["dead"]) else
       match decode bs 16384 with
       | .ok h f _ =>
-        let r := floodFrame st.flood ctx h f
+        -- a CONTINUATION inside a header block also has to fit the connection buffer
+        let r := match ctx, f with
+          | .inHeaderBlock, .continuation =>
+            let c := continuationStep Consts.cfgDefaultBufferSize st.flood h.len
+            if c.2.isSome then c
+            else if flagSet h.flags Consts.h2FlagEndHeaders then floodRun c.1 [.headersEnd] else c
+          | _, _ => floodFrame st.flood ctx h f
         ({ flood := r.1, dead := r.2.isSome }, [violStr r.2 ++ " " ++ counters r.1])
       | .incomplete => (st, ["incomplete"])
       | .err c => (st, [s!"err {c}"])
+    | _, _ => (st, ["bad-op"])
+  | ["hbudget", mb, mf, fields] =>
+    let fs := if fields = "-" then some [] else
+      (fields.splitOn ",").mapM fun kv =>
+        match kv.splitOn ":" with
+        | [k, v] => match k.toNat?, v.toNat? with
+          | some k, some v => some (k, v)
+          | _, _ => none
+        | _ => none
+    match mb.toNat?, mf.toNat?, fs with
+    | some mb, some mf, some fs =>
+      (st, [soutStr ((headerBudget mb mf fs).getD .handled)])
+    | _, _, _ => (st, ["bad-op"])
+  | ["clen", declared, frames] =>
+    let d : Option (Option Nat) := if declared = "-" then some none else declared.toNat?.map some
+    let fs := if frames = "-" then some [] else
+      (frames.splitOn ",").mapM fun kv =>
+        match kv.splitOn ":" with
+        | [k, v] => match k.toNat? with
+          | some k => if v = "1" then some (k, true) else if v = "0" then some (k, false) else none
+          | none => none
+        | _ => none
+    match d, fs with
+    | some d, some fs =>
+      (st, [soutStr (contentLengthRun d 0 fs).2])
+    | _, _ => (st, ["bad-op"])
+  | ["prio", known, la, sid, dep] =>
+    match sid.toNat?, dep.toNat? with
+    | some sid, some dep =>
+      (st, [soutStr (priorityVerdict (known == "1") (la == "1") sid dep)])
     | _, _ => (st, ["bad-op"])
   | ["psettings", hex] =>
     match hexToBytes hex with
